@@ -165,12 +165,60 @@ theorem writeOut_last {decls : List Class} (objs : List Creation) (r : Creation)
       if accepts decls r p v then Out.accepted else Out.rejected := by
   simp [Spec.Gen.writeOut]
 
+/-- The node an operation is executed through and the text of that node (class, written type arguments). -/
+def siteKey : Op → Option (Nat × Nat × Option (List Ty))
+  | .instAt s c a => some (s, c, some a)
+  | .instRawAt s c => some (s, c, none)
+  | .instCtorAt s c a _ _ => some (s, c, some a)
+  | _ => none
+
+theorem check_ite (x : Option Ty) (v : Val) :
+    (if check x v = true then Out.accepted else Out.rejected) =
+      if (match x with | none => true | some t => t.accepts v) = true then Out.accepted else Out.rejected := by
+  cases x <;> rfl
+
+theorem callOut_eq {decls s objs} (h : Rel decls s objs) (i n : Nat) (v : Val) :
+    Model.Gen.callOut s i n v = outOf decls objs (.call i n v) := by
+  unfold Model.Gen.callOut outOf
+  cases ho : s.insts[i]? with
+  | none =>
+    have : objs[i]? = none := by
+      rw [List.getElem?_eq_none_iff] at ho ⊢; rw [← h.len]; exact ho
+    simp [this]
+  | some o =>
+    have hi : i < objs.length := by
+      rw [← h.len]; exact (List.getElem?_eq_some_iff.mp ho).1
+    have hr0 : objs[i]? = some objs[i] := List.getElem?_eq_getElem hi
+    obtain ⟨hcls, c, hc, hm⟩ := h.rel i o objs[i] ho hr0
+    have hc2 : s.classes[o.cls]? = some c := by rw [h.classes, hcls]; exact hc
+    simp only [hr0, hc, hc2]
+    by_cases hn : n ∈ c.params
+    · simp only [hn, if_true, takes, hc]
+      by_cases hv : v = Val.null
+      · subst hv; simp
+      · have hb : (v == Val.null) = false := by simp [hv]
+        simp only [hv, if_false, hb, Bool.false_or, GMap.get]
+        cases ha : objs[i].args with
+        | none => rw [ha] at hm; simp [hm n, check]
+        | some args =>
+          rw [ha] at hm; simp only at hm
+          simp only [hm n]
+          exact check_ite _ _
+    · simp [hn]
+
+/-- One step of an operation that is not executed through a shared node. -/
 theorem step_sim {decls : List Class} {s : State} {objs : List Creation} (hwf : WF decls)
-    (h : Rel decls s objs) (o : Op) :
+    (h : Rel decls s objs) (o : Op) (hu : siteKey o = none) :
     (step s o).2 = outOf decls objs o ∧ Rel decls (step s o).1 (push decls objs o) := by
   have hcl := h.classes
   have hlen := h.len
   cases o with
+  | instAt site c args => simp [siteKey] at hu
+  | instRawAt site c => simp [siteKey] at hu
+  | instCtorAt site c args p v => simp [siteKey] at hu
+  | call i n v =>
+    simp only [step, push, creates]
+    exact ⟨callOut_eq h i n v, h⟩
   | inst c args =>
     cases hc : decls[c]? with
     | none =>
@@ -244,21 +292,313 @@ theorem step_sim {decls : List Class} {s : State} {objs : List Creation} (hwf : 
         rw [← hlen]; exact (List.getElem?_eq_some_iff.mp ho).1
       simp only [step, outOf, push, creates, ho, this, if_true]; exact ⟨trivial, h⟩
 
+/-! ### AST nodes executed more than once -/
+
+/-- The same operation executed through a node of its own. -/
+def unsite : Op → Op
+  | .instAt _ c a => .inst c a
+  | .instRawAt _ c => .instRaw c
+  | .instCtorAt _ c a p v => .instCtor c a p v
+  | o => o
+
+/-- Two operations do not disagree about the text of a node. -/
+def compat (a b : Op) : Bool :=
+  match siteKey a, siteKey b with
+  | some (s, k), some (s', k') => s != s' || k == k'
+  | _, _ => true
+
+/-- A history is a run of a program: every node has one text (`new C<args>` written once, executed
+any number of times). -/
+def SiteWF (h : List Op) : Prop := h.Pairwise (fun a b => compat a b = true)
+
+instance (h : List Op) : Decidable (SiteWF h) := by unfold SiteWF; infer_instance
+
+theorem compat_key {a b : Op} (h : compat a b = true) {s c c' : Nat} {k k' : Option (List Ty)}
+    (ha : siteKey a = some (s, c, k)) (hb : siteKey b = some (s, c', k')) : c = c' ∧ k = k' := by
+  simp [compat, ha, hb] at h
+  exact h
+
+/-- What the nodes hold agrees with what the nodes still to be executed would compute. -/
+def Coh (decls : List Class) (cache : Nat → Option Inst) (rest : List Op) : Prop :=
+  ∀ o ∈ rest, ∀ s c a, siteKey o = some (s, c, a) → ∀ i, cache s = some i → build decls c a = .ok i
+
+theorem coh_init (decls : List Class) (h : List Op) : Coh decls (init decls).cache h := by
+  intro o _ s c a _ i hi; simp [init] at hi
+
+theorem coh_tail {decls cache o os} (h : Coh decls cache (o :: os)) : Coh decls cache os :=
+  fun o' ho' => h o' (List.mem_cons_of_mem _ ho')
+
+theorem resolveAt_hit {s : State} {site c : Nat} {a : Option (List Ty)} {i : Inst}
+    (h : s.cache site = some i) : resolveAt s site c a = (s, .ok i) := by
+  simp [resolveAt, h]
+
+theorem resolveAt_miss_ok {s : State} {site c : Nat} {a : Option (List Ty)} {i : Inst}
+    (h : s.cache site = none) (hb : build s.classes c a = .ok i) :
+    resolveAt s site c a =
+      ({ s with cache := fun k => if k = site then some i else s.cache k }, .ok i) := by
+  simp [resolveAt, h, hb]
+
+theorem resolveAt_miss_crash {s : State} {site c : Nat} {a : Option (List Ty)}
+    (h : s.cache site = none) (hb : build s.classes c a = .crash) :
+    resolveAt s site c a = (s, .crash) := by
+  simp [resolveAt, h, hb]
+
+theorem resolveAt_miss_noClass {s : State} {site c : Nat} {a : Option (List Ty)}
+    (h : s.cache site = none) (hb : build s.classes c a = .noClass) :
+    resolveAt s site c a = (s, .noClass) := by
+  simp [resolveAt, h, hb]
+
+/-- `resolveClass` with its early return answers what a fresh computation answers, touches only the
+node, and leaves the nodes coherent with the rest of the history. -/
+theorem resolveAt_spec {decls : List Class} {s : State} (hcl : s.classes = decls) (o : Op) (os : List Op)
+    (site c : Nat) (a : Option (List Ty)) (hk : siteKey o = some (site, c, a))
+    (hwf : SiteWF (o :: os)) (hcoh : Coh decls s.cache (o :: os)) :
+    (resolveAt s site c a).2 = build decls c a ∧ (resolveAt s site c a).1.classes = s.classes ∧
+      (resolveAt s site c a).1.insts = s.insts ∧ Coh decls (resolveAt s site c a).1.cache os := by
+  cases hc : s.cache site with
+  | some i =>
+    have := hcoh o (List.mem_cons_self) site c a hk i hc
+    rw [resolveAt_hit hc]
+    exact ⟨this.symm, rfl, rfl, coh_tail hcoh⟩
+  | none =>
+    cases hb : build decls c a with
+    | noClass =>
+      rw [resolveAt_miss_noClass hc (hcl ▸ hb)]; exact ⟨rfl, rfl, rfl, coh_tail hcoh⟩
+    | crash =>
+      rw [resolveAt_miss_crash hc (hcl ▸ hb)]; exact ⟨rfl, rfl, rfl, coh_tail hcoh⟩
+    | ok i =>
+      rw [resolveAt_miss_ok hc (hcl ▸ hb)]
+      refine ⟨rfl, rfl, rfl, ?_⟩
+      intro o' ho' s' c' a' hk' i' hi'
+      simp only at hi'
+      by_cases hs : s' = site
+      · subst hs
+        simp only [if_true] at hi'
+        have hcomp : compat o o' = true := (List.pairwise_cons.mp hwf).1 o' ho'
+        obtain ⟨e1, e2⟩ := compat_key hcomp hk hk'
+        subst e1; subst e2
+        rw [hb, Option.some.inj hi']
+      · simp only [hs, if_false] at hi'
+        exact hcoh o' (List.mem_cons_of_mem _ ho') s' c' a' hk' i' hi'
+
+theorem Rel.congr {decls s s' objs} (h : Rel decls s objs) (hc : s'.classes = s.classes)
+    (hi : s'.insts = s.insts) : Rel decls s' objs :=
+  ⟨hc ▸ h.classes, hi ▸ h.len, by rw [hi]; exact h.rel⟩
+
+theorem creates_unsite (decls : List Class) (o : Op) : creates decls (unsite o) = creates decls o := by
+  cases o <;> rfl
+
+theorem outOf_unsite (decls : List Class) (objs : List Creation) (o : Op) :
+    outOf decls objs (unsite o) = outOf decls objs o := by
+  cases o <;> rfl
+
+theorem push_unsite (decls : List Class) (objs : List Creation) (o : Op) :
+    push decls objs (unsite o) = push decls objs o := by
+  unfold push; rw [creates_unsite]
+
+/-- The un-sited `new`, written through `build`. -/
+theorem step_inst_build (s : State) (c : Nat) (args : List Ty) :
+    step s (.inst c args) =
+      match build s.classes c (some args) with
+      | .noClass => (s, .noClass)
+      | .crash => (s, .crash)
+      | .ok o => ({ s with insts := s.insts ++ [o] }, .created s.insts.length) := by
+  simp only [step, build]
+  cases s.classes[c]? with
+  | none => rfl
+  | some cl => dsimp only; cases buildMap cl.params args GMap.empty <;> rfl
+
+theorem step_raw_build (s : State) (c : Nat) :
+    step s (.instRaw c) =
+      match build s.classes c none with
+      | .noClass => (s, .noClass)
+      | .crash => (s, .crash)
+      | .ok o => ({ s with insts := s.insts ++ [o] }, .created s.insts.length) := by
+  simp only [step, build]
+  cases s.classes[c]? <;> rfl
+
+theorem step_ctor_build (s : State) (c : Nat) (args : List Ty) (p : Nat) (v : Val) :
+    step s (.instCtor c args p v) =
+      match build s.classes c (some args) with
+      | .noClass => (s, .noClass)
+      | .crash => (s, .crash)
+      | .ok o =>
+        match writeOut { s with insts := s.insts ++ [o] } s.insts.length p v with
+        | .rejected => (s, .rejected)
+        | _ => ({ s with insts := s.insts ++ [o] }, .created s.insts.length) := by
+  simp only [step, build]
+  cases s.classes[c]? with
+  | none => rfl
+  | some cl => dsimp only; cases buildMap cl.params args GMap.empty <;> rfl
+
+/-- `writeOut` does not look at the nodes. -/
+theorem writeOut_congr {s s' : State} (hc : s'.classes = s.classes) (hi : s'.insts = s.insts)
+    (i p : Nat) (v : Val) : Model.Gen.writeOut s' i p v = Model.Gen.writeOut s i p v := by
+  unfold Model.Gen.writeOut; rw [hc, hi]
+
+/-- A sited step answers as the un-sited one and builds the same objects. -/
+theorem step_unsite {decls : List Class} {s : State} (hcl : s.classes = decls) (o : Op) (os : List Op)
+    (hwf : SiteWF (o :: os)) (hcoh : Coh decls s.cache (o :: os)) :
+    (step s o).2 = (step s (unsite o)).2 ∧ (step s o).1.classes = (step s (unsite o)).1.classes ∧
+      (step s o).1.insts = (step s (unsite o)).1.insts ∧ Coh decls (step s o).1.cache os := by
+  cases o with
+  | instAt site c args =>
+    obtain ⟨h1, h2, h3, h4⟩ := resolveAt_spec hcl _ os site c (some args) rfl hwf hcoh
+    simp only [unsite]
+    rw [← hcl] at h1
+    rw [step_inst_build, ← h1]
+    simp only [step]
+    generalize resolveAt s site c (some args) = r at h2 h3 h4
+    obtain ⟨s1, b⟩ := r
+    simp only at h2 h3 h4
+    cases b with
+    | noClass => exact ⟨rfl, h2, h3, h4⟩
+    | crash => exact ⟨rfl, h2, h3, h4⟩
+    | ok i =>
+      refine ⟨?_, h2, ?_, h4⟩
+      · show Out.created s1.insts.length = Out.created s.insts.length
+        rw [h3]
+      · show s1.insts ++ [i] = s.insts ++ [i]
+        rw [h3]
+  | instRawAt site c =>
+    obtain ⟨h1, h2, h3, h4⟩ := resolveAt_spec hcl _ os site c none rfl hwf hcoh
+    simp only [unsite]
+    rw [← hcl] at h1
+    rw [step_raw_build, ← h1]
+    simp only [step]
+    generalize resolveAt s site c none = r at h2 h3 h4
+    obtain ⟨s1, b⟩ := r
+    simp only at h2 h3 h4
+    cases b with
+    | noClass => exact ⟨rfl, h2, h3, h4⟩
+    | crash => exact ⟨rfl, h2, h3, h4⟩
+    | ok i =>
+      refine ⟨?_, h2, ?_, h4⟩
+      · show Out.created s1.insts.length = Out.created s.insts.length
+        rw [h3]
+      · show s1.insts ++ [i] = s.insts ++ [i]
+        rw [h3]
+  | instCtorAt site c args p v =>
+    obtain ⟨h1, h2, h3, h4⟩ := resolveAt_spec hcl _ os site c (some args) rfl hwf hcoh
+    simp only [unsite]
+    rw [← hcl] at h1
+    rw [step_ctor_build, ← h1]
+    simp only [step]
+    generalize resolveAt s site c (some args) = r at h2 h3 h4
+    obtain ⟨s1, b⟩ := r
+    simp only at h2 h3 h4
+    cases b with
+    | noClass => exact ⟨rfl, h2, h3, h4⟩
+    | crash => exact ⟨rfl, h2, h3, h4⟩
+    | ok i =>
+      have hw : Model.Gen.writeOut { s1 with insts := s1.insts ++ [i] } s1.insts.length p v =
+          Model.Gen.writeOut { s with insts := s.insts ++ [i] } s.insts.length p v := by
+        rw [h3]
+        exact writeOut_congr (s := { s with insts := s.insts ++ [i] })
+          (s' := { s1 with insts := s.insts ++ [i] }) h2 rfl _ _ _
+      simp only [hw]
+      cases Model.Gen.writeOut { s with insts := s.insts ++ [i] } s.insts.length p v <;>
+        first
+          | exact ⟨rfl, h2, h3, h4⟩
+          | (refine ⟨?_, h2, ?_, h4⟩
+             · show Out.created s1.insts.length = Out.created s.insts.length
+               rw [h3]
+             · show s1.insts ++ [i] = s.insts ++ [i]
+               rw [h3])
+  | inst c args => exact ⟨rfl, rfl, rfl, by
+      have : (step s (.inst c args)).1.cache = s.cache := by
+        simp only [step_inst_build]; cases build s.classes c (some args) <;> rfl
+      rw [this]; exact coh_tail hcoh⟩
+  | instRaw c => exact ⟨rfl, rfl, rfl, by
+      have : (step s (.instRaw c)).1.cache = s.cache := by
+        simp only [step_raw_build]; cases build s.classes c none <;> rfl
+      rw [this]; exact coh_tail hcoh⟩
+  | instCtor c args p v => exact ⟨rfl, rfl, rfl, by
+      have : (step s (.instCtor c args p v)).1.cache = s.cache := by
+        simp only [step_ctor_build]
+        cases build s.classes c (some args) with
+        | noClass => rfl
+        | crash => rfl
+        | ok i => simp only; cases Model.Gen.writeOut { s with insts := s.insts ++ [i] } s.insts.length p v <;> rfl
+      rw [this]; exact coh_tail hcoh⟩
+  | write i p v => exact ⟨rfl, rfl, rfl, coh_tail hcoh⟩
+  | call i n v => exact ⟨rfl, rfl, rfl, coh_tail hcoh⟩
+  | read i p => exact ⟨rfl, rfl, rfl, by
+      have : (step s (.read i p)).1.cache = s.cache := by
+        simp only [step]; cases s.insts[i]? <;> rfl
+      rw [this]; exact coh_tail hcoh⟩
+
+/-- One step of any operation, sited or not. -/
+theorem step_sim_at {decls : List Class} {s : State} {objs : List Creation} (hwf : WF decls)
+    (h : Rel decls s objs) (o : Op) (os : List Op) (hs : SiteWF (o :: os))
+    (hcoh : Coh decls s.cache (o :: os)) :
+    (step s o).2 = outOf decls objs o ∧ Rel decls (step s o).1 (push decls objs o) ∧
+      Coh decls (step s o).1.cache os := by
+  obtain ⟨h1, h2, h3, h4⟩ := step_unsite h.classes o os hs hcoh
+  obtain ⟨g1, g2⟩ := step_sim hwf h (unsite o) (by cases o <;> rfl)
+  rw [outOf_unsite] at g1
+  rw [push_unsite] at g2
+  exact ⟨h1.trans g1, g2.congr h2 h3, h4⟩
+
 theorem runFrom_sim {decls : List Class} (hwf : WF decls) (h : List Op) :
-    ∀ (s : State) (objs : List Creation), Rel decls s objs →
+    ∀ (s : State) (objs : List Creation), Rel decls s objs → SiteWF h → Coh decls s.cache h →
       (Model.Gen.runFrom s h).2 = Spec.Gen.runFrom decls objs h ∧
       Rel decls (Model.Gen.runFrom s h).1 (objs ++ created decls h) := by
   induction h with
-  | nil => intro s objs hr; simp [Model.Gen.runFrom, Spec.Gen.runFrom, created, hr]
+  | nil => intro s objs hr _ _; simp [Model.Gen.runFrom, Spec.Gen.runFrom, created, hr]
   | cons o os ih =>
-    intro s objs hr
-    obtain ⟨h1, h2⟩ := step_sim hwf hr o
-    obtain ⟨h3, h4⟩ := ih (step s o).1 (push decls objs o) h2
+    intro s objs hr hs hcoh
+    obtain ⟨h1, h2, hc⟩ := step_sim_at hwf hr o os hs hcoh
+    obtain ⟨h3, h4⟩ := ih (step s o).1 (push decls objs o) h2 (List.pairwise_cons.mp hs).2 hc
     simp only [Model.Gen.runFrom, Spec.Gen.runFrom]
     refine ⟨by rw [h1]; exact congrArg _ h3, ?_⟩
     have : push decls objs o ++ created decls os = objs ++ created decls (o :: os) := by
       unfold push created
       cases hcr : creates decls o <;> simp [hcr]
     rw [← this]; exact h4
+
+/-- Only a well-formed `new C<args>` creates an object with written type arguments. -/
+theorem creates_arity {decls : List Class} {o : Op} {c : Nat} {args : List Ty}
+    (ho : creates decls o = some ⟨c, some args⟩) : arityOk decls c args = true := by
+  cases o with
+  | inst c' a' =>
+    simp only [creates] at ho
+    by_cases h : arityOk decls c' a' = true
+    · simp [h] at ho; obtain ⟨rfl, rfl⟩ := ho; exact h
+    · simp [h] at ho
+  | instAt _ c' a' =>
+    simp only [creates] at ho
+    by_cases h : arityOk decls c' a' = true
+    · simp [h] at ho; obtain ⟨rfl, rfl⟩ := ho; exact h
+    · simp [h] at ho
+  | instCtor c' a' p v =>
+    simp only [creates] at ho
+    by_cases h : (arityOk decls c' a' && accepts decls ⟨c', some a'⟩ p v) = true
+    · simp only [h, if_true, Option.some.injEq, Creation.mk.injEq] at ho
+      obtain ⟨rfl, hargs⟩ := ho
+      cases hargs
+      exact (Bool.and_eq_true _ _ ▸ h).1
+    · simp [h] at ho
+  | instCtorAt _ c' a' p v =>
+    simp only [creates] at ho
+    by_cases h : (arityOk decls c' a' && accepts decls ⟨c', some a'⟩ p v) = true
+    · simp only [h, if_true, Option.some.injEq, Creation.mk.injEq] at ho
+      obtain ⟨rfl, hargs⟩ := ho
+      cases hargs
+      exact (Bool.and_eq_true _ _ ▸ h).1
+    · simp [h] at ho
+  | instRaw c' => simp only [creates] at ho; by_cases h : (decls[c']?).isSome = true <;> simp [h] at ho
+  | instRawAt _ c' => simp only [creates] at ho; by_cases h : (decls[c']?).isSome = true <;> simp [h] at ho
+  | write => simp [creates] at ho
+  | read => simp [creates] at ho
+  | call => simp [creates] at ho
+
+/-- From the initial state. -/
+theorem run_sim {decls : List Class} (hwf : WF decls) (h : List Op) (hs : SiteWF h) :
+    (Model.Gen.run decls h).2 = Spec.Gen.run decls h ∧
+      Rel decls (Model.Gen.run decls h).1 (created decls h) := by
+  have := runFrom_sim hwf h (init decls) [] (rel_init decls) hs (coh_init decls h)
+  rw [List.nil_append] at this
+  exact this
 
 end Proofs.Gen
